@@ -31,17 +31,19 @@ theorem writeData_safe {b : Bool} {st : St} (h : Good b st) (d : DataExpr) (byte
   unfold DataExpr.writeData
   split
   · rename_i s' p' hw
-    obtain ⟨hi, hp, ha, hn, hpp⟩ := w.2 _ _ _ hw
+    obtain ⟨hi, hp, ha, hn, hpp, tr, hpath, hdg⟩ := w.2 _ _ _ hw
     refine ⟨by simp, fun d' st' r e => ?_⟩
     cases e
     have g := good_setSeg h hi hp
-    exact ⟨g.1, g.2, by rw [hl] at ha; exact ha, ⟨rfl, rfl, hpp⟩, fun _ => hn rfl⟩
+    exact ⟨g, ext_of_path (st'' := { st with seg := _ }) hp rfl hpath (by simp [hdg]),
+      by rw [hl] at ha; exact ha, ⟨rfl, rfl, hpp⟩, fun _ => hn rfl⟩
   · rename_i s' p' e' hw
-    obtain ⟨hi, hp, ha, hn, hpp⟩ := w.2 _ _ _ hw
+    obtain ⟨hi, hp, ha, hn, hpp, tr, hpath, hdg⟩ := w.2 _ _ _ hw
     refine ⟨by simp, fun d' st' r e => ?_⟩
     cases e
     have g := good_setSeg h hi hp
-    exact ⟨good_pushIn g.1 .., g.2, by rw [hl] at ha; exact ha, ⟨rfl, rfl, hpp⟩, fun e => by cases e⟩
+    exact ⟨good_pushIn g .., ext_of_path (st'' := St.pushIn { st with seg := _ } _ _ _ _) hp rfl hpath (by simp [hdg, St.pushIn]),
+      by rw [hl] at ha; exact ha, ⟨rfl, rfl, hpp⟩, fun e => by cases e⟩
   · rename_i r hw
     exact ⟨fun e => by cases e; exact w.1 hw, fun d' st' r e => by cases e⟩
 
@@ -239,17 +241,19 @@ theorem writeInstr_safe {enc : Encoder} (henc : EncLen enc) {b : Bool} {st : St}
       (if deferred then List.replicate bytes.length (0xBE : UInt8) else bytes) (by rw [hl']; exact hat)
     split
     · rename_i s' p' hw
-      obtain ⟨hi, hp, ha, hn, hpp⟩ := w.2 _ _ _ hw
+      obtain ⟨hi, hp, ha, hn, hpp, tr, hpath, hdg⟩ := w.2 _ _ _ hw
       refine ⟨by simp, fun i' st' r e => ?_⟩
       cases e
       have g := good_setSeg h hi hp
-      exact ⟨g.1, g.2, by rw [hl'] at ha; exact ha, ⟨rfl, rfl, hpp⟩, fun _ => hn rfl⟩
+      exact ⟨g, ext_of_path (st'' := { st with seg := _ }) hp rfl hpath (by simp [hdg]),
+        by rw [hl'] at ha; exact ha, ⟨rfl, rfl, hpp⟩, fun _ => hn rfl⟩
     · rename_i s' p' e' hw
-      obtain ⟨hi, hp, ha, hn, hpp⟩ := w.2 _ _ _ hw
+      obtain ⟨hi, hp, ha, hn, hpp, tr, hpath, hdg⟩ := w.2 _ _ _ hw
       refine ⟨by simp, fun i' st' r e => ?_⟩
       cases e
       have g := good_setSeg h hi hp
-      exact ⟨good_pushIn g.1 .., g.2, by rw [hl'] at ha; exact ha, ⟨rfl, rfl, hpp⟩, fun e => by cases e⟩
+      exact ⟨good_pushIn g .., ext_of_path (st'' := St.pushIn { st with seg := _ } _ _ _ _) hp rfl hpath (by simp [hdg, St.pushIn]),
+        by rw [hl'] at ha; exact ha, ⟨rfl, rfl, hpp⟩, fun e => by cases e⟩
     · rename_i r hw
       exact ⟨fun e => by cases e; exact w.1 hw, fun i' st' r e => by cases e⟩
 
